@@ -242,6 +242,17 @@ def run_case(case, ctx):
         for k in range(N):
             one = Yt.mttkrp([f.copy() for f in fm], k)
             ctx.check(close(allg.value[k], one, tol=1e-10), "tensor.mttkrps", "WRONG", f"mode {k}: mttkrps differs from mttkrp", mode_k=min(k, 3))
+    # ... also when the factors are handed over as the Kruskal model itself (its weights then scale the columns in both forms)
+    allk = ctx.call("tensor.mttkrps", Yt.mttkrps, ttb.ktensor([f.copy() for f in fm], np.array(lam, dtype=float).copy()))
+    if allk.ok:
+        for k in range(N):
+            one = Yt.mttkrp(ttb.ktensor([f.copy() for f in fm], np.array(lam, dtype=float).copy()), k)
+            ctx.check(close(allk.value[k], one, tol=1e-10), "tensor.mttkrps", "WRONG", f"mode {k}: mttkrps(ktensor) differs from mttkrp(ktensor)", mode_k=min(k, 3),
+                      operand="ktensor")
+            ctx.check(close(allk.value[k], refops.mttkrp(Y, fm, k, weights=np.array(lam, dtype=float)), tol=1e-10), "tensor.mttkrps", "WRONG",
+                      f"mode {k}: mttkrps(ktensor) differs from the definition", mode_k=min(k, 3), operand="ktensor")
+    else:
+        ctx.check(False, "tensor.mttkrps", "RAISE:" + type(allk.exc).__name__, f"{type(allk.exc).__name__}: {allk.exc}", operand="ktensor")
     if lamk != "unit":
         # the estimator's own weight handling: with the weight check on, a model with non-unit weights is evaluated as the tensor it
         # denotes (only the objective is comparable: the gradient then refers to the re-normalised parameterisation)
@@ -286,6 +297,42 @@ def run_case(case, ctx):
             Gh_k = refops.mttkrp(np.asarray(gh(Xd, Md), dtype=float), fm, k)
             ctx.check(bool(np.max(np.abs(Ge[k] - Gunw[k])) <= tolg * gs), "estimate", "WRONG-GRADIENT", f"mode {k}: sampled gradient on all entries differs from the exact one",
                       mode_k=min(k, 3), follows_handle=bool(np.max(np.abs(Ge[k] - Gh_k)) <= 1e-9 * gs))
+        # partial sample sets (one draw, a few draws, draws confined to the leading slices so that trailing indices of a mode are never
+        # visited): the estimate is the weighted sum of the loss over the draws, its gradients are the derivatives of that sum -- factor
+        # shaped, with zero rows for indices no draw visits
+        allsubs_ = np.array(list(np.ndindex(*shape)))
+        for kind_ in ("one", "few", "leading"):
+            if kind_ == "one":
+                ps = allsubs_[rng.integers(0, len(allsubs_), size=1)]
+            elif kind_ == "few":
+                ps = allsubs_[rng.integers(0, len(allsubs_), size=int(rng.integers(2, 6)))]
+            else:
+                lead = allsubs_[np.all(allsubs_ < np.maximum(1, np.array(shape) - 1), axis=1)]
+                ps = lead[rng.integers(0, len(lead), size=int(rng.integers(1, 5)))]
+            pw = np.round(rng.uniform(0.5, 3.0, size=len(ps)), 3)
+            pv = Xd[tuple(ps.T)]
+            rp = ctx.call("estimate", estimate, M, ps.copy(), pv.copy(), pw.copy(), fh, gh, False, None)
+            if not rp.ok:
+                ctx.check(False, "estimate", "RAISE:" + type(rp.exc).__name__, f"{type(rp.exc).__name__}: {rp.exc} | {rp.tb}", partial=kind_)
+                continue
+            Fp, Gp_ = rp.value
+            Lp = L[tuple(ps.T)]
+            ctx.check(abs(float(Fp) - float(np.sum(pw * Lp))) <= 1e-9 * (float(np.sum(np.abs(pw * Lp))) + 1e-300), "estimate", "WRONG-OBJECTIVE",
+                      f"{kind_} sample: estimate {Fp!r} vs weighted sum of the loss {float(np.sum(pw * Lp))!r}", partial=kind_)
+            Dp = np.zeros(shape)
+            np.add.at(Dp, tuple(ps.T), pw * dref.reshape(shape)[tuple(ps.T)])
+            for k in range(N):
+                want_k = refops.mttkrp(Dp, fm, k)
+                okshape = np.asarray(Gp_[k]).shape == want_k.shape
+                ctx.check(okshape, "estimate", "WRONG-GRADIENT-SHAPE", f"{kind_} sample, mode {k}: gradient shape {np.asarray(Gp_[k]).shape}, factor shape {want_k.shape}",
+                          partial=kind_, mode_k=min(k, 3))
+                if okshape:
+                    gs_ = float(np.max(np.abs(refops.mttkrp(np.abs(Dp), [np.abs(f) for f in fm], k)))) + 1e-300
+                    Hp = np.zeros(shape)
+                    np.add.at(Hp, tuple(ps.T), pw * np.asarray(gh(Xd, Md), dtype=float)[tuple(ps.T)])
+                    ctx.check(bool(np.max(np.abs(np.asarray(Gp_[k]) - want_k)) <= tolg * gs_), "estimate", "WRONG-GRADIENT",
+                              f"{kind_} sample, mode {k}: gradient of the sampled objective differs from its derivative", partial=kind_, mode_k=min(k, 3),
+                              follows_handle=bool(np.max(np.abs(np.asarray(Gp_[k]) - refops.mttkrp(Hp, fm, k))) <= 1e-9 * gs_))
         # semi-stratified form of the same identity: the stored nonzeros are sampled as "nonzeros flagged for the zero correction"
         # (they contribute f(x,m) - f(0,m)), every entry is sampled as a zero (f(0,m)); repeated draws carry reciprocal weights.  Over all
         # entries the estimator is again the exact objective / gradient of the (sparse) data -- for one, two or many nonzeros.
